@@ -8,65 +8,37 @@ model's function is proved about the function the source defines now.
 -/
 namespace Tc
 
-theorem rcmp_pair_lt (t1 t2 : Int) (v1 v2 : Option String) (h : t1 < t2) :
-    Src.ROrd.rcmp (t1, v1) (t2, v2) = .lt := by
-  simp [Src.ROrd.rcmp, h]
+/-! Rust's derived order, as far as `transform` uses it, in the model's vocabulary -/
 
-theorem rcmp_pair_gt (t1 t2 : Int) (v1 v2 : Option String) (h : t2 < t1) :
-    Src.ROrd.rcmp (t1, v1) (t2, v2) = .gt := by
-  have : ¬ t1 < t2 := by omega
-  simp [Src.ROrd.rcmp, h, this]
+theorem rcmp_int (a b : Int) : Src.ROrd.rcmp a b = if a < b then .lt else if b < a then .gt else .eq := rfl
+theorem rcmp_pair' (t1 t2 : Int) (v1 v2 : Option String) :
+    Src.ROrd.rcmp (t1, v1) (t2, v2) = if t1 < t2 then .lt else if t2 < t1 then .gt else Src.ROrd.rcmp v1 v2 := by
+  by_cases h12 : t1 < t2
+  · simp [Src.ROrd.rcmp, h12]
+  · by_cases h21 : t2 < t1
+    · simp [Src.ROrd.rcmp, h12, h21]
+    · simp [Src.ROrd.rcmp, h12, h21]
+theorem rcmp_opt' (v1 v2 : Option String) :
+    Src.ROrd.rcmp v1 v2 = if v1 = v2 then .eq else if vlt v1 v2 then .lt else .gt := by
+  by_cases h : v1 = v2
+  · subst h; cases v1 <;> simp [Src.ROrd.rcmp, String.lt_irrefl]
+  · by_cases hl : vlt v1 v2 = true
+    · cases v1 <;> cases v2 <;> simp_all [Src.ROrd.rcmp, vlt]
+    · cases v1 <;> cases v2 <;> simp_all [Src.ROrd.rcmp, vlt]
+      rename_i a b
+      rcases Std.lt_trichotomy a b with h1 | h1 | h1
+      · exact absurd h1 hl
+      · exact absurd h1 h
+      · have : ¬ a < b := hl
+        simp [this, h1]
 
-theorem rcmp_pair_eq (t : Int) (v1 v2 : Option String) :
-    Src.ROrd.rcmp (t, v1) (t, v2) = Src.ROrd.rcmp v1 v2 := by
-  simp [Src.ROrd.rcmp]
-
-theorem rcmp_opt_self (v : Option String) : Src.ROrd.rcmp v v = .eq := by
-  cases v <;> simp [Src.ROrd.rcmp, String.lt_irrefl]
-
-theorem rcmp_opt_lt (v1 v2 : Option String) (h : vlt v1 v2 = true) : Src.ROrd.rcmp v1 v2 = .lt := by
-  cases v1 <;> cases v2 <;> simp_all [Src.ROrd.rcmp, vlt]
-
-theorem rcmp_opt_gt (v1 v2 : Option String) (hne : v1 ≠ v2) (h : ¬ vlt v1 v2 = true) :
-    Src.ROrd.rcmp v1 v2 = .gt := by
-  cases v1 <;> cases v2 <;> simp_all [Src.ROrd.rcmp, vlt]
-  rename_i a b
-  rcases Std.lt_trichotomy a b with h1 | h1 | h1
-  · exact absurd h1 h
-  · exact absurd h1 hne
-  · have : ¬ a < b := h
-    simp [this, h1]
-
-theorem src_transform_upd (u1 : Nat) (k1 : String) (v1 : Option String) (t1 : Int)
-    (u2 : Nat) (k2 : String) (v2 : Option String) (t2 : Int) :
-    Src.transform (.update u1 k1 v1 t1) (.update u2 k2 v2 t2)
-      = transform (.update u1 k1 v1 t1) (.update u2 k2 v2 t2) := by
-  simp only [Src.transform, transform]
-  by_cases h : u1 = u2 ∧ k1 = k2
-  · simp only [h, and_self, if_true]
-    by_cases h12 : t1 < t2
-    · simp [h12, rcmp_pair_lt t1 t2 v1 v2 h12]
-    · by_cases h21 : t2 < t1
-      · simp [h12, h21, rcmp_pair_gt t1 t2 v1 v2 h21]
-      · have heq : t1 = t2 := by omega
-        subst heq
-        simp only [h12, if_false, rcmp_pair_eq]
-        by_cases hv : v1 = v2
-        · subst hv; simp [rcmp_opt_self]
-        · by_cases hl : vlt v1 v2 = true
-          · simp [hv, hl, rcmp_opt_lt v1 v2 hl]
-          · simp [hv, hl, rcmp_opt_gt v1 v2 hv hl]
-  · simp [h]
-
-/-- **the source's `SyncOp::transform` is the model's `transform`**, for every pair of operations -/
+/-- **the source's `SyncOp::transform` is the model's `transform`**, for every pair of operations.
+    The proof is deliberately generic (case split on the two operations, unfold both functions, rewrite
+    Rust's order into the model's vocabulary, `grind`): harmless rewrites of the Rust function — arms in
+    another order where they do not overlap, `cmp` replaced by comparisons or by an if-chain on the
+    timestamps and values — translate to a different `Src.transform` and are proved equal by the same
+    script (tried on such rewrites, DESIGN B.8); rewrites that change the function make it fail. -/
 theorem src_transform_eq (a b : SyncOp) : Src.transform a b = transform a b := by
-  cases a with
-  | create u1 => cases b <;> simp only [Src.transform, transform] <;> split <;> simp_all
-  | delete u1 => cases b <;> simp only [Src.transform, transform] <;> split <;> simp_all
-  | update u1 k1 v1 t1 =>
-    cases b with
-    | create u2 => simp only [Src.transform, transform]
-    | delete u2 => simp only [Src.transform, transform]
-    | update u2 k2 v2 t2 => exact src_transform_upd u1 k1 v1 t1 u2 k2 v2 t2
+  cases a <;> cases b <;> simp only [Src.transform, transform, rcmp_pair', rcmp_opt', rcmp_int, Prod.mk.injEq] <;> grind
 
 end Tc
